@@ -30,9 +30,9 @@ PROPS = {
     'C08': {
         'e3_always': ['atom_from_stream'],
         'e3': ['atom_from_stream'],
-        'units': ['ser', 'serout'],
-        'decided': 'serialiser: every chunk SExpToBytesIterator::next emits is the next piece of the consensus serialisation ser(tree) of its work stack (0xff for a pair then its children, enc_atom for an atom), with the length-prefix encoder (atom_size_blob) equal to the consensus prefix table; lemma dec_enc_atom: the decoder contract reads back exactly what the encoder contract writes, for every length class; atom decoder (atom_from_stream, Stream::read, int_from_bytes, get_u32) returns exactly what the consensus decoder returns and rejects what it rejects',
-        'not_covered': ['op-stack walker of sexp_from_stream (Box<dyn> stack)', 'the for loop of sexp_to_stream that writes the chunks to the Stream (Stream::write)', 'byte-equality with clvmr rests on a transcribed spec'],
+        'units': ['ser', 'serout', 'serloop'],
+        'decided': 'serialiser: every chunk SExpToBytesIterator::next emits is the next piece of the consensus serialisation ser(tree) of its work stack (0xff for a pair then its children, enc_atom for an atom), with the length-prefix encoder (atom_size_blob) equal to the consensus prefix table; sexp_to_stream appends exactly ser(tree) to a stream positioned at its end and terminates (work-stack weight decreases), over Stream::write (bytes land at the cursor, the rest of the buffer is kept, the cursor moves past them) and Stream::re_allocate (capacity only); lemma dec_enc_atom: the decoder contract reads back exactly what the encoder contract writes, for every length class; atom decoder (atom_from_stream, Stream::read, int_from_bytes, get_u32) returns exactly what the consensus decoder returns and rejects what it rejects',
+        'not_covered': ['op-stack walker of sexp_from_stream (Box<dyn> stack)', 'atoms of 2^34 bytes or more (sexp_to_stream silently stops there; excluded by precondition)', 'that the allocator reference is handed back unchanged by sexp_to_stream (shown per step for the iterator only)', 'byte-equality with clvmr rests on a transcribed spec'],
     },
     'C06': {
         'e3_always': ['choose_path'],
